@@ -32,13 +32,34 @@ pub mod shims {
     use crate::acme_common::error::Error;
     verus! {
     pub assume_specification<T> [std::mem::drop] (x: T);
-    // ---- locks (async_lock::RwLock behind Arc): guards give access to the protected value; scheduling is not modelled (C12)
-    pub struct RwLock<T> { pub v: T }
+    // ---- locks (async_lock::RwLock behind Arc): guards give access to the protected value.  Scheduling between tasks is not
+    // modelled (C12); what one task holds is: `Locks.held` is the set of locks the task has a guard of, each with the rank of its type.
+    // The contract of read() / write() is the lock discipline of the daemon: a task takes no lock it already holds (the lock is
+    // write-preferring: a second read guard waits for ever behind a queued writer, a second write guard behind the first) and
+    // takes locks in rank order (the account before the endpoint, as every path of request_certificate does) - so no task can
+    // wait for itself and no two tasks can wait for each other.  Guards are released where Rust drops them (rule T-DROP).
+    pub struct RwLock<T> { pub v: T, pub id: Ghost<int> }
     pub struct ReadGuard<'a, T> { pub r: &'a T }
     pub struct WriteGuard<'a, T> { pub r: &'a mut T }
-    impl<T> RwLock<T> {
-        #[verifier::external_body] pub fn read(&self) -> ReadGuard<'_, T> { unimplemented!() }
-        #[verifier::external_body] pub fn write(&self) -> WriteGuard<'_, T> { unimplemented!() }
+    pub tracked struct Locks { pub ghost held: Set<(int, int)> }   // (rank, identity) of every lock the task has a guard of
+    impl Locks {
+        pub proof fn new() -> (tracked r: Locks) ensures r.held == Set::<(int, int)>::empty() { Locks { held: Set::empty() } }
+        pub proof fn release(tracked &mut self, l: (int, int)) ensures final(self).held == old(self).held.remove(l) { self.held = self.held.remove(l); }
+    }
+    pub trait Ranked { spec fn rank() -> int; }
+    impl Ranked for Account { open spec fn rank() -> int { 0 } }
+    impl Ranked for Endpoint { open spec fn rank() -> int { 1 } }
+    pub open spec fn lid<T: Ranked>(l: std::sync::Arc<RwLock<T>>) -> (int, int) { (T::rank(), l.id@) }
+    pub open spec fn may_take(held: Set<(int, int)>, rank: int) -> bool { forall|k: (int, int)| #[trigger] held.contains(k) ==> k.0 < rank }
+    impl<T: Ranked> RwLock<T> {
+        #[verifier::external_body] pub fn read(&self, Tracked(lk): Tracked<&mut Locks>) -> (g: ReadGuard<'_, T>)
+            requires !old(lk).held.contains((T::rank(), self.id@)), //@C07.a_task_never_takes_a_lock_it_already_holds
+                may_take(old(lk).held.remove((T::rank(), self.id@)), T::rank()), //@C07.locks_are_taken_in_one_order_account_before_endpoint
+            ensures final(lk).held == old(lk).held.insert((T::rank(), self.id@)) { unimplemented!() }
+        #[verifier::external_body] pub fn write(&self, Tracked(lk): Tracked<&mut Locks>) -> (g: WriteGuard<'_, T>)
+            requires !old(lk).held.contains((T::rank(), self.id@)), //@C07.a_task_never_takes_a_lock_it_already_holds
+                may_take(old(lk).held.remove((T::rank(), self.id@)), T::rank()), //@C07.locks_are_taken_in_one_order_account_before_endpoint
+            ensures final(lk).held == old(lk).held.insert((T::rank(), self.id@)) { unimplemented!() }
     }
     impl<'a, T> std::ops::Deref for ReadGuard<'a, T> { type Target = T; #[verifier::external_body] fn deref(&self) -> (r: &T) ensures *r == *self.r { self.r } }
     impl<'a, T> std::ops::Deref for WriteGuard<'a, T> { type Target = T; #[verifier::external_body] fn deref(&self) -> &T { self.r } }
